@@ -30,7 +30,7 @@ EvX == /\ InRange /\ E.e = "X"
 
 NewCall(e) ==
   [o |-> e.o, op |-> e.op, sd |-> e.sd, m |-> Msg(e.m), d |-> e.d, f |-> e.f, w |-> e.w,
-   pre |-> [k \in 1..e.pre |-> Msg(199 + k)], none |-> e.none,
+   pre |-> [k \in 1..Len(e.pv) |-> Msg(e.pv[k])], none |-> e.none,
    st |-> "inv", r |-> "", v |-> 0, vs |-> <<>>, opt |-> FALSE, md |-> <<>>, tB |-> e.t]
 
 EvB == /\ InRange /\ E.e = "B" /\ c[E.p].st = "idle"
